@@ -189,11 +189,11 @@ def generate_corpus(ctx, rng):
         consts = [("CurveNames", tset([nm])), ("Bases", tset(bases)), ("KFrom", kfrom), ("KTo", kto),
                   ("Stride", stride), ("DStride", dstride)]
         jobs.append(("EcGenWalk", tag, gen_cfg(consts, ["Closed", "Cycle", "Ladder", "Special", "DblOk"])))
-    if ctx.quick:       # 16-bit group: the first and the last 1200 scalars; 13-bit group: everything + part of a 2nd base
+    if ctx.quick:       # 16-bit group: the first and the last 5000 scalars; 13-bit group: everything + part of a 2nd base
         walk("E13", "E13", [1], 0, 0, 8, 16)
-        walk("E16M3", "E16M3.lo", [1], 0, 1200, 8, 16)
-        walk("E16M3", "E16M3.hi", [1], 63984, 0, 8, 16)
-        walk("E13", "E13.b", [rng.randrange(2, 4000)], 0, 1200, 8, 16)
+        walk("E16M3", "E16M3.lo", [1], 0, 5000, 8, 32)
+        walk("E16M3", "E16M3.hi", [1], 60184, 0, 8, 32)
+        walk("E13", "E13.b", [rng.randrange(2, 4000)], 0, 2500, 8, 16)
     else:
         walk("E16M3", "E16M3", [1], 0, 0, 2, 64)
         walk("E16M3", "E16M3.b", [rng.randrange(2, 60000)], 0, 0, 2, 64)
@@ -367,6 +367,9 @@ def fail_key(cfg, m, idx, kind):
         return "unknown_pt_mult:table-sized-by-fxp-window:unkpt_win_bits>fxp_win_bits:" + kind
     if not cfg["proj"] and ((uses_unk and e["unk_eff"] == 1) or (uses_fxp and cfg["fxp"] == 1)):
         return "pre_dbl_mult:affine:" + kind
+    if (uses_unk and e["unk_eff"] in (3, 4) and e["unkw_eff"] > cfg["digit"]) or \
+       (uses_fxp and cfg["fxp"] in (3, 4) and cfg["fxpw"] > cfg["digit"]):
+        return "comb_mult:window-bits>digit-bits:" + kind
     ic = input_class(m, idx)
     if op in ("twinbp", "twin"):
         algo = TWIN[e["twin_eff"]] if op == "twinbp" else TWIN[0 if e["twin_eff"] == 1 else e["twin_eff"]]
@@ -563,7 +566,10 @@ def modec(ctx, cfg, exe, names, rng, full_names, nsample):
     for n, f in curves.items():
         stats["validate"][n] = int(f["validate"])
         if int(f["validate"]) != 0:
-            fails.append(("ec_curve_validate:built-in:nonzero", "ec_curve_validate(%s) = %s in %s" % (n, f["validate"], cfg_name(cfg)),
+            # its only group computation is n*G through the unknown-point multiplier
+            k_ = fail_key(cfg, {"op": "mul", "P": [1, 1], "args": [2]}, 0, "wrong-result")
+            fails.append((k_ if not k_.startswith("unknown_pt_mult:%s:" % FXP[eff(cfg)["unk_eff"]]) else "ec_curve_validate:built-in:nonzero",
+                          "ec_curve_validate(%s) = %s in %s" % (n, f["validate"], cfg_name(cfg)),
                           {"config": cfg_defs(cfg), "curve": n}))
     OPN = {"bp": "mult_bp", "unk": "unknown_pt_mult", "twinbp": "twin_mult_bp", "twin": "twin_mult", "lad": "ladder(ec_point_add)"}
     # round 1: a random multiple P1 = k1*G from the base-point multiplier (certified by its ladder in round 2)
@@ -622,6 +628,11 @@ def modec(ctx, cfg, exe, names, rng, full_names, nsample):
             stats["ladder_steps_decided"] += len(steps); return []
         stats["ladder_steps_decided"] += nsample
         return sorted(rng.sample(range(1, len(steps) + 1), nsample))
+    def steps_of(st, chk):
+        """all steps, or (sampled ladders) only the steps TLC looks at: j-1 and j for j in chk, and the last one"""
+        if not chk: return [pt_limbs(t) for t in st]
+        need = {len(st)} | set(chk) | {j - 1 for j in chk}
+        return [pt_limbs(t) if (j + 1) in need else [] for j, t in enumerate(st)]
     for x, r in zip(l2, r2):
         line, n, kind = x[0], x[1], x[2]
         if r is None: continue
@@ -642,15 +653,17 @@ def modec(ctx, cfg, exe, names, rng, full_names, nsample):
         elif kind in ("bp", "unk"):
             st = ladders.get((n, x[3], x[4]))
             if not tok_ok(st): continue
-            ev.append({"op": "mul", "ci": cidx[n], "P": pt_limbs(x[3]), "k": limbs13(hx(x[4])), "steps": [pt_limbs(t) for t in st],
-                       "chk": chk_of(n, st), "R": [pt_limbs(r[0])]})
+            ch = chk_of(n, st)
+            ev.append({"op": "mul", "ci": cidx[n], "P": pt_limbs(x[3]), "k": limbs13(hx(x[4])), "steps": steps_of(st, ch),
+                       "chk": ch, "R": [pt_limbs(r[0])]})
         elif kind in ("twinbp", "twin"):
             (Pa, k), (Qa, l) = x[3], x[4]
             sp = ladders.get((n, Pa, k)); sq = ladders.get((n, Qa, l))
             if not (tok_ok(sp) and tok_ok(sq)): continue
-            ev.append({"op": "twin", "ci": cidx[n], "P": pt_limbs(Pa), "k": limbs13(hx(k)), "stepsP": [pt_limbs(t) for t in sp],
-                       "chkP": chk_of(n, sp), "Q": pt_limbs(Qa), "l": limbs13(hx(l)), "stepsQ": [pt_limbs(t) for t in sq],
-                       "chkQ": chk_of(n, sq), "R": [pt_limbs(r[0])]})
+            cp, cq = chk_of(n, sp), chk_of(n, sq)
+            ev.append({"op": "twin", "ci": cidx[n], "P": pt_limbs(Pa), "k": limbs13(hx(k)), "stepsP": steps_of(sp, cp),
+                       "chkP": cp, "Q": pt_limbs(Qa), "l": limbs13(hx(l)), "stepsQ": steps_of(sq, cq),
+                       "chkQ": cq, "R": [pt_limbs(r[0])]})
         evmeta.append((kind, n, line[:300], pseudo_meta(kind, x)))
     stats["events"] = len(ev) - len(curves)
     return fails, ev, evmeta, stats
@@ -790,13 +803,15 @@ def run(ctx):
             k = 3 if ctx.quick else 5
             sub = sorted({names[(bi * 7 + j * 11) % 32] for j in range(k)}, key=names.index)
             full = set() if ctx.quick else {sub[bi % len(sub)]}
-        plan.append((c, exes["asan"], sub, full))
+        plan.append((c, exes["fast"] if ctx.quick else exes["asan"], sub, full))
     def cjob(p):
         c, exe, sub, full = p
         r = random.Random("%s/%s/C" % (ctx.seed, cfg_name(c)))
         return p, modec(ctx, c, exe, sub, r, full, 3 if ctx.quick else 12)
+    t0 = time.time()
     with ThreadPoolExecutor(max_workers=4) as ex:
         modec_out = list(ex.map(cjob, plan))
+    ctx.log("mode C: library driven on the built-in curves in %.0fs" % (time.time() - t0))
     nval_total = 0; cstats = []
     def vjob(a):
         bi, ((c, exe, sub, full), (fails, ev, evmeta, st)) = a
